@@ -167,6 +167,9 @@ def check(pid, tier):
     timeout = conf.get("timeout", DEFAULT_TIMEOUT)[ti]
     race = bool(conf.get("race"))
     evpath = os.path.join(HARNESS if PRIVATE else ROOT, "evidence", pid + ".json")
+    if REPO != "/repo":
+        # a run against a scratch copy (mutation / seeded-change self-test) must not overwrite real evidence
+        evpath = os.path.join(BIN, "evidence-scratch", pid + ".json")
     os.makedirs(os.path.dirname(evpath), exist_ok=True)
     if not build(need_cli=bool(conf.get("cli")), race=race):
         print("INCONCLUSIVE property=%s build failed" % pid)
